@@ -11,7 +11,7 @@ Reading guide:
 * finding 6  — `validStr48_iff`, `validStr64_iff`, `valid_non_str`, `valid_iff_ctor`
 * finding 11 — `cmp_eq` … `cmp_ge`, `cmpWith_eui`, `cmpWith_str`, `cmpWith_int`, `cmpWith_other`
 * finding 8  — `copy_ctor`, `ctorValue_str`, `ctorValue_int`, `ctor_float`, `ctor_none_bytes`,
-               `ctor_dialect`, `ctor_error_order`
+               `ctor_dialect`, `ctor_error_order`, `ctorValue_error_class`
 * finding 13 — `value_setter`, `setter_no_fallback`, `dialect_setter`
 * finding 14 — `roundtrip_bare48`, `roundtrip_bare64`, `roundtrip_fit48_ext`, `roundtrip_fit64_ext`
 * finding 17 — `getItem_kinds`, `setItemAny_precedence`
@@ -510,6 +510,106 @@ example : ctor (.addr (.str "zz".toList)) none .junk = .error .addrFormat := by 
 example : ctor (.addr (.int 5)) (some 3) .junk = .error .value := by rfl
 example : ctor (.addr (.int 5)) none .junk = .error .type_ := by rfl
 example : ctor (.addr (.int 5)) none (.cls eui64Default) = .ok (48, 5, eui64Default) := by rfl
+
+/-- **the exception class of every rejected constructor call that is not a copy** (integers below
+    the digit limit; `C08.ofAnyF_error_class` extended to every argument kind): **ValueError**
+    exactly for a version other than 48 / 64; **TypeError** for a versionless argument that is no
+    str (an integer outside 0 … 2^64-1, a float, None, bytes), for None with any version and for
+    bytes with `version=48`; **AddrFormatError** otherwise (a str that is no EUI of the requested /
+    of any version, an int or float outside the explicit version's range, bytes with `version=64`) -/
+theorem ctorValue_error_class (a : CtorArg) (ha : ∀ w v d, a ≠ .eui w v d)
+    (hb : ∀ n, a = .addr (.int n) → n.natAbs < 10 ^ strDigitLimit) (ver : Option Int) (e : Err)
+    (h : ctorValue a ver = .error e) :
+    (e = .value ∧ ∃ k, ver = some k ∧ k ≠ 48 ∧ k ≠ 64) ∨
+    (e = .type_ ∧ ((ver = none ∧ ∀ s, a ≠ .addr (.str s)) ∨ a = .pyNone ∨ (a = .bytes ∧ ver = some 48))) ∨
+    (e = .addrFormat ∧ (ver = some 48 ∨ ver = some 64 ∨ (ver = none ∧ ∃ s, a = .addr (.str s)))) := by
+  -- the version test comes first, whatever the argument
+  have hver : ∀ k : Int, ver = some k → k ≠ 48 → k ≠ 64 → e = .value := by
+    intro k hk h1 h2
+    subst hk
+    simp only [ctorValue, if_neg h1, if_neg h2] at h
+    injection h with h; exact h.symm
+  cases a with
+  | eui w v d => exact absurd rfl (ha w v d)
+  | addr x =>
+    cases x with
+    | str s =>
+      rw [ctorValue_str] at h
+      rcases ofAnyF_error_class _ _ _ h with ⟨a1, a2⟩ | ⟨_, _, n, hn, _⟩ | ⟨a1, a2⟩
+      · exact Or.inl ⟨a1, a2⟩
+      · cases hn
+      · refine Or.inr (Or.inr ⟨a1, ?_⟩)
+        rcases a2 with a2 | a2 | ⟨a2, t, ht⟩
+        · exact Or.inl a2
+        · exact Or.inr (Or.inl a2)
+        · exact Or.inr (Or.inr ⟨a2, s, rfl⟩)
+    | int n =>
+      rw [ctorValue_int n (hb n rfl)] at h
+      rcases ofAnyF_error_class _ _ _ h with ⟨a1, a2⟩ | ⟨a1, a2, _⟩ | ⟨a1, a2⟩
+      · exact Or.inl ⟨a1, a2⟩
+      · exact Or.inr (Or.inl ⟨a1, Or.inl ⟨a2, fun s hs => by cases hs⟩⟩)
+      · refine Or.inr (Or.inr ⟨a1, ?_⟩)
+        rcases a2 with a2 | a2 | ⟨_, t, ht⟩
+        · exact Or.inl a2
+        · exact Or.inr (Or.inl a2)
+        · cases ht
+  | float t =>
+    cases ver with
+    | none =>
+      have : e = .type_ := by injection (show Except.error Err.type_ = Except.error e from h) with h'; exact h'.symm
+      exact Or.inr (Or.inl ⟨this, Or.inl ⟨rfl, fun s hs => by cases hs⟩⟩)
+    | some k =>
+      by_cases h48 : k = 48
+      · subst h48
+        have e1 : ctorValue (.float t) (some 48) =
+            if 0 ≤ t ∧ t ≤ ((Eui.maxInt 48 : Nat) : Int) then .ok (48, t.toNat) else .error .addrFormat := rfl
+        rw [e1] at h
+        split at h
+        · cases h
+        · injection h with h; exact Or.inr (Or.inr ⟨h.symm, Or.inl rfl⟩)
+      · by_cases h64 : k = 64
+        · subst h64
+          have e1 : ctorValue (.float t) (some 64) =
+              if 0 ≤ t ∧ t ≤ ((Eui.maxInt 64 : Nat) : Int) then .ok (64, t.toNat) else .error .addrFormat := rfl
+          rw [e1] at h
+          split at h
+          · cases h
+          · injection h with h; exact Or.inr (Or.inr ⟨h.symm, Or.inr (Or.inl rfl)⟩)
+        · exact Or.inl ⟨hver k rfl h48 h64, k, rfl, h48, h64⟩
+  | pyNone =>
+    cases ver with
+    | none =>
+      have : e = .type_ := by injection (show Except.error Err.type_ = Except.error e from h) with h'; exact h'.symm
+      exact Or.inr (Or.inl ⟨this, Or.inr (Or.inl rfl)⟩)
+    | some k =>
+      by_cases h48 : k = 48
+      · subst h48
+        have : e = .type_ := by injection (show Except.error Err.type_ = Except.error e from h) with h'; exact h'.symm
+        exact Or.inr (Or.inl ⟨this, Or.inr (Or.inl rfl)⟩)
+      · by_cases h64 : k = 64
+        · subst h64
+          have : e = .type_ := by injection (show Except.error Err.type_ = Except.error e from h) with h'; exact h'.symm
+          exact Or.inr (Or.inl ⟨this, Or.inr (Or.inl rfl)⟩)
+        · exact Or.inl ⟨hver k rfl h48 h64, k, rfl, h48, h64⟩
+  | bytes =>
+    cases ver with
+    | none =>
+      have : e = .type_ := by injection (show Except.error Err.type_ = Except.error e from h) with h'; exact h'.symm
+      exact Or.inr (Or.inl ⟨this, Or.inl ⟨rfl, fun s hs => by cases hs⟩⟩)
+    | some k =>
+      by_cases h48 : k = 48
+      · subst h48
+        have : e = .type_ := by injection (show Except.error Err.type_ = Except.error e from h) with h'; exact h'.symm
+        exact Or.inr (Or.inl ⟨this, Or.inr (Or.inr ⟨rfl, rfl⟩)⟩)
+      · by_cases h64 : k = 64
+        · subst h64
+          have : e = .addrFormat := by
+            injection (show Except.error Err.addrFormat = Except.error e from h) with h'; exact h'.symm
+          exact Or.inr (Or.inr ⟨this, Or.inr (Or.inl rfl)⟩)
+        · exact Or.inl ⟨hver k rfl h48 h64, k, rfl, h48, h64⟩
+
+example : ctorValue .bytes (some 64) = .error .addrFormat := by rfl
+example : ctorValue (.float 3) none = .error .type_ := by rfl
 
 /-! ## finding 11, continued: operands that are not EUI objects -/
 
